@@ -98,6 +98,3 @@ func (cp *CollectingProcess) VerifServerTLSConfig() (*tls.Config, error) {
 
 // VerifStopChan exposes the stop channel (to end handleTCPClient).
 func (cp *CollectingProcess) VerifStopChan() chan struct{} { return cp.stopChan }
-
-// VerifGetMessageLength exposes getMessageLength's contract for a 4-byte prefix.
-func VerifGetFieldLength(b *bytes.Buffer) int { return getFieldLength(b) }
